@@ -7,6 +7,7 @@ import (
 	"os"
 	"runtime/debug"
 	"syscall"
+	"time"
 )
 
 // Worker is the per-process context handed to Property.Run.
@@ -56,6 +57,16 @@ func WorkerMain() {
 		Verif:   envOr("VERIF_ROOT", "/verif"),
 	}
 	debug.SetMaxStack(64 << 20)
+	// never outlive the coordinator
+	ppid := os.Getppid()
+	go func() {
+		for {
+			time.Sleep(time.Second)
+			if os.Getppid() != ppid {
+				os.Exit(4)
+			}
+		}
+	}()
 	_ = w.enc.Encode(wireMsg{T: "H"})
 
 	in := bufio.NewReaderSize(os.Stdin, 1<<20)
